@@ -967,6 +967,12 @@ class Interpreter(BaseInterpreter[TContext, TEvent]):
             if explicit_id
             else f"{self.id}:{actor_machine_key}:{uuid.uuid4()}"
         )
+        # ♻️ Reusing an explicit id supersedes the previous holder. Overwriting
+        #    the map entry alone orphaned the first child: its run loop and
+        #    timers stayed alive and `stop()` could no longer reach it.
+        previous = self._actors.pop(actor_id, None)
+        if previous is not None:
+            await previous.stop()
         child_interpreter = Interpreter(actor_machine)
         child_interpreter.parent = self
         child_interpreter.id = actor_id
